@@ -13,7 +13,7 @@ OPTION_MSG = "can only be used on fields of type `Option`"
 
 def item_compilable_by_construction(it):
     """Items the generator knows rustc must accept once the derive accepted them."""
-    has_tparams = "<" in it.generics and any(p in it.generics for p in ("T", "U"))
+    has_tparams = any(not p.strip().startswith(("'", "const ")) for p in it.generics.strip("<>").split(",") if p.strip())
     for _sp, k, _t in it.cattrs:
         if k == "bound" and has_tparams:
             return False
